@@ -103,7 +103,9 @@ pub fn run(args: &Args) -> Report {
             let owner_tag = gm.children[ci].iter().find(|t| t.role == Role::Tag).map(|t| t.text.clone()).unwrap_or_default();
             let site = format!("{}@{}", gm.children[ci][ti].elem, owner_tag);
             let old = gm.children[ci][ti].text.clone();
-            let bad = format!("corrupt_{k}_x");
+            // mostly a fresh name; sometimes the reserved word of ANOTHER kind of field (which is an ordinary name there)
+            let reserved_elsewhere: Vec<&str> = ["NO_COMPU_METHOD", "NO_INPUT_QUANTITY", "NO_INVERSE_TRANSFORMER"].into_iter().filter(|w| !is_convention(&gm.children[ci][ti].elem, w)).collect();
+            let bad = if k % 5 == 4 { reserved_elsewhere[k % reserved_elsewhere.len()].to_string() } else { format!("corrupt_{k}_x") };
             gm.children[ci][ti].text = bad.clone();
             let t2 = gm.text("m", &mut Rng(mi as u64));
             gm.children[ci][ti].text = old;
